@@ -15,7 +15,8 @@
    max_length, the child would be a useful state at depth >= |Q| of a finite language.
    Symbols of the start word outside the alphabet (next_symbol, e6d88f7): a level whose path holds
    such a symbol has run off the automaton, nothing is entered from it, so it owes no subtree (ok);
-   the level of the first such symbol may owe all n subtrees of its parent instead of n-1. *)
+   the level of the first such symbol may owe all n subtrees of its parent instead of n-1.
+   should_yield (366d64a) plays no role in termination. *)
 From Coq Require Import List Arith Bool Lia Sorted.
 From AV Require Import Base.Util Base.Closure Spec.Lang Spec.FA Spec.DictOrder Spec.Words Model.Decide
                        Model.Product Model.Succ Model.SuccMachine Proofs.FARun Proofs.Product
@@ -336,14 +337,13 @@ Qed.
 Theorem machine_forward_total fuel m start strict lo ohi :
   valid_dfa m = true ->
   (ohi = None -> finite_lang (L_dfa m)) ->
-  (forall s, start = Some s -> Forall (fun a => exists y, In y (d_syms m) /\ y <= a) s) ->
   machine_fuel m start ohi <= fuel ->
   succ_machine fuel m start strict false lo ohi = Ok (succ_list m start strict lo (the_hi m ohi)).
 Proof.
-  intros Hv Hfin Hstart Hfuel.
+  intros Hv Hfin Hfuel.
   destruct (machine_total fuel m start strict false lo ohi Hv) as [l El]; try assumption.
   - intros [E|E]; [discriminate|apply Hfin; exact E].
-  - rewrite El. f_equal. exact (machine_forward_correct fuel m start strict lo ohi l Hv Hfin Hstart El).
+  - rewrite El. f_equal. exact (machine_forward_correct fuel m start strict lo ohi l Hv Hfin El).
 Qed.
 
 Theorem machine_reverse_total fuel m start strict lo ohi :
